@@ -3,25 +3,56 @@
 package dnsmsg
 
 // Contracts for the deductive checker in /verif (comment-only file, no declarations).
+// Syntax: see /verif/DESIGN.md section 2.2.
+
+//@ spec func lower(c byte) byte = ('A' <= c && c <= 'Z') ? c + 32 : c
+
+// ---- utils.go ---------------------------------------------------------------------
 
 //@ func copyBuf(b []byte) (c pool.Buffer)
 //@   props C01 C02 C20
 //@   modifies nothing
 //@   ensures len(c) == len(b) && fresh(c) && bytesEq(c, 0, b, 0, len(b))
 
+//@ func bytes2StrUnsafe(b []byte) (s string)
+//@   trusted
+//@   modifies nothing
+//@   ensures len(s) == len(b) && sameSlice(s, b, 0, len(b))
+
 //@ func packByte(b []byte, off int, v byte) (noff int, err error)
 //@   props C01 C02
 //@   requires 0 <= off && off <= len(b)
-//@   modifies b[off:off+1]
+//@   modifies b[off:(off+1 <= len(b) ? off+1 : off)]
 //@   ensures off+1 <= len(b) ==> err == nil && noff == off+1 && b[off] == v
 //@   ensures off+1 >  len(b) ==> err == ErrSmallBuffer && noff == off
+
+//@ func packNamePtr(b []byte, off int, v [2]byte) (noff int, err error)
+//@   props C01 C02
+//@   requires 0 <= off && off <= len(b)
+//@   modifies b[off:(off+2 <= len(b) ? off+2 : off)]
+//@   ensures off+2 <= len(b) ==> err == nil && noff == off+2 && b[off] == v[0] && b[off+1] == v[1]
+//@   ensures off+2 >  len(b) ==> err == ErrSmallBuffer && noff == off
 
 //@ func packUint16(b []byte, off int, v uint16) (noff int, err error)
 //@   props C01 C02
 //@   requires 0 <= off && off <= len(b)
-//@   modifies b[off:off+2]
+//@   modifies b[off:(off+2 <= len(b) ? off+2 : off)]
 //@   ensures off+2 <= len(b) ==> err == nil && noff == off+2 && BE16(b, off) == v
 //@   ensures off+2 >  len(b) ==> err == ErrSmallBuffer && noff == off
+
+//@ func packUint32(b []byte, off int, v uint32) (noff int, err error)
+//@   props C01 C02
+//@   requires 0 <= off && off <= len(b)
+//@   modifies b[off:(off+4 <= len(b) ? off+4 : off)]
+//@   ensures off+4 <= len(b) ==> err == nil && noff == off+4 && BE32(b, off) == v
+//@   ensures off+4 >  len(b) ==> err == ErrSmallBuffer && noff == off
+
+//@ func packBytes(b []byte, off int, v []byte) (noff int, err error)
+//@   props C01 C02
+//@   requires 0 <= off && off <= len(b)
+//@   modifies b[off:(off+len(v) <= len(b) ? off+len(v) : off)]
+//@   ensures off+len(v) <= len(b) ==> err == nil && noff == off+len(v) && forall(k, 0, len(v), b[off+k] == old(v[k]))
+//@   ensures off+len(v) >  len(b) ==> err == ErrSmallBuffer && noff == off
 
 //@ func unpackUint16Msg(msg []byte, off int) (v uint16, noff int, err error)
 //@   props C01 C02
@@ -29,3 +60,143 @@ package dnsmsg
 //@   modifies nothing
 //@   ensures len(msg)-off >= 2 ==> err == nil && v == BE16(msg, off) && noff == off+2
 //@   ensures len(msg)-off <  2 ==> err == ErrSmallBuffer
+
+//@ func unpackUint32Msg(msg []byte, off int) (v uint32, noff int, err error)
+//@   props C01 C02
+//@   requires 0 <= off && off <= len(msg)
+//@   modifies nothing
+//@   ensures len(msg)-off >= 4 ==> err == nil && v == BE32(msg, off) && noff == off+4
+//@   ensures len(msg)-off <  4 ==> err == ErrSmallBuffer
+
+//@ func unpackBytesMsgToBuffer(msg []byte, off int, l int) (buf pool.Buffer, noff int, err error)
+//@   props C01 C02 C20
+//@   requires 0 <= off && off <= len(msg) && 0 <= l
+//@   modifies nothing
+//@   ensures len(msg)-off >= l ==> err == nil && noff == off+l && len(buf) == l && fresh(buf) && bytesEq(buf, 0, msg, off, l)
+//@   ensures len(msg)-off <  l ==> err == ErrSmallBuffer && buf == nil
+
+//@ func unpackBytesMsg(msg []byte, off int, dst []byte) (noff int, err error)
+//@   props C01 C02
+//@   requires 0 <= off && off <= len(msg)
+//@   modifies dst[0:len(dst)]
+//@   ensures len(msg)-off >= len(dst) ==> err == nil && noff == off+len(dst) && forall(k, 0, len(dst), dst[k] == old(msg[off+k]))
+//@   ensures len(msg)-off <  len(dst) ==> err == ErrSmallBuffer
+
+//@ func asciiToLower(s []byte)
+//@   props C01 C07 C10
+//@   modifies s[0:len(s)]
+//@   ensures forall(i, 0, len(s), s[i] == lower(old(s[i])))
+//@   loop 1:
+//@     modifies s[0:len(s)]
+//@     invariant forall(i, 0, rangeindex+1, s[i] == lower(old(s[i])))
+//@     invariant forall(i, rangeindex+1, len(s), s[i] == old(s[i]))
+
+// ---- name.go ------------------------------------------------------------------------
+
+//@ func (s *NameScanner) Scan() (ok bool)
+//@   props C01 C02 C11
+//@   requires s != nil && 0 <= s.off && s.off <= len(s.n)
+//@   modifies s.label, s.labelOff, s.off, s.err
+//@   ensures ok ==> old(s.off) < len(s.n) && 1 <= len(s.label) && len(s.label) <= 63
+//@                && int(s.n[old(s.off)]) == len(s.label) && s.labelOff == old(s.off)+1
+//@                && s.off == s.labelOff+len(s.label) && s.off <= len(s.n) && len(s.n) <= 254
+//@                && sameSlice(s.label, s.n, s.labelOff, s.off) && s.err == old(s.err)
+//@   ensures !ok ==> s.off == old(s.off)
+//@   ensures !ok && s.err == nil ==> old(s.err) == nil && s.off == len(s.n) && len(s.n) <= 254
+
+//@ func ToLowerName(n []byte) (err error)
+//@   props C01 C07 C10
+//@   modifies n[0:len(n)]
+//@   ensures [C07,C10:lowered] err == nil ==> forall(i, 0, len(n), n[i] == lower(old(n[i])))
+//@   loop 1:
+//@     modifies n[0:len(n)], scanner.label, scanner.labelOff, scanner.off, scanner.err
+//@     invariant sameSlice(scanner.n, n, 0, len(n)) && 0 <= scanner.off && scanner.off <= len(n)
+//@     invariant scanner.err == nil
+//@     invariant forall(i, 0, scanner.off, n[i] == lower(old(n[i])))
+//@     invariant forall(i, scanner.off, len(n), n[i] == old(n[i]))
+//@     decreases len(n) - scanner.off
+
+//@ func (n *NameBuilder) unpack(msg []byte, off int) (newOff int, err error)
+//@   props C01 C02
+//@   requires n != nil && 0 <= off && off <= len(msg)
+//@   modifies n.buf, n.l
+//@   ensures err == nil ==> off < newOff && newOff <= len(msg) && int(n.l) <= 254
+//@   ensures err != nil ==> newOff == off
+//@   loop 1:
+//@     modifies n.buf
+//@     invariant 0 <= currOff && 0 <= ptr && ptr <= 10
+//@     invariant sameSlice(name, n.buf[:], 0, len(name)) && cap(name) == 254 && len(name) <= 254
+//@     invariant ptr == 0 ==> newOff == off0 && off0 <= currOff
+//@     invariant ptr >  0 ==> off0 < newOff && newOff <= len(msg)
+//@     decreases 10 - ptr, len(msg) - currOff
+
+//@ func (b *NameBuilder) ToName() (n Name)
+//@   props C01 C02 C20
+//@   requires b != nil
+//@   modifies nothing
+//@   ensures len(n) == int(b.l) && fresh(n)
+//@   ensures int(b.l) <= 254 ==> bytesEq(n, 0, b.buf[:], 0, int(b.l))
+
+//@ func unpackName(msg []byte, off int) (n Name, noff int, err error)
+//@   props C01 C02 C20
+//@   requires 0 <= off && off <= len(msg)
+//@   modifies nothing
+//@   ensures err == nil ==> off < noff && noff <= len(msg) && n != nil && fresh(n) && len(n) <= 254
+//@   ensures err != nil ==> n == nil
+
+//@ func (n Name) pack(msg []byte, off int, compression map[string]uint16) (noff int, err error)
+//@   props C01 C02
+//@   requires 0 <= off && off <= len(msg)
+//@   modifies msg[off:len(msg)], obj(compression)
+//@   ensures off <= noff && noff <= len(msg)
+//@   ensures err == nil ==> off < noff
+//@   ensures [C02:uncompressed] err == nil && compression == nil && !sameObj(n, msg) ==>
+//@             noff == off+len(n)+1 && len(n) <= 254 && bytesEq(msg, off, n, 0, len(n)) && msg[off+len(n)] == 0
+//@   loop 1:
+//@     modifies msg[off0:len(msg)], obj(compression), scanner.label, scanner.labelOff, scanner.off, scanner.err
+//@     invariant sameSlice(scanner.n, n, 0, len(n)) && 0 <= scanner.off && scanner.off <= len(n) && scanner.err == nil
+//@     invariant off0 <= off && off <= len(msg)
+//@     invariant len(unsafeStr) == 0 || len(unsafeStr) == len(n)
+//@     invariant compression == nil ==> off == off0 + scanner.off
+//@     invariant compression == nil && !sameObj(n, msg) ==> bytesEq(msg, off0, n, 0, scanner.off)
+//@     decreases len(n) - scanner.off
+
+// ---- question.go ----------------------------------------------------------------------
+
+//@ func NewQuestion() (q *Question)
+//@   trusted
+//@   modifies nothing
+//@   ensures q != nil && fresh(q) && q.Name == nil && q.Type == 0 && q.Class == 0
+
+//@ func (q *Question) pack(msg []byte, off int, compression map[string]uint16) (noff int, err error)
+//@   props C01 C02
+//@   requires q != nil && 0 <= off && off <= len(msg)
+//@   modifies msg[off:len(msg)], obj(compression)
+//@   ensures off <= noff && noff <= len(msg)
+//@   ensures err == nil ==> off < noff
+//@   ensures [C02:uncompressed] err == nil && compression == nil && !sameObj(q.Name, msg) ==>
+//@             noff == off+len(q.Name)+5 && len(q.Name) <= 254
+//@             && bytesEq(msg, off, q.Name, 0, len(q.Name)) && msg[off+len(q.Name)] == 0
+//@             && BE16(msg, off+len(q.Name)+1) == uint16(q.Type) && BE16(msg, off+len(q.Name)+3) == uint16(q.Class)
+
+//@ func unpackQuestion(msg []byte, off int) (q *Question, noff int, err error)
+//@   props C01 C02 C20
+//@   requires 0 <= off && off <= len(msg)
+//@   modifies nothing
+//@   ensures err == nil ==> q != nil && fresh(q) && off < noff && noff <= len(msg)
+//@             && q.Name != nil && fresh(q.Name) && len(q.Name) <= 254
+//@             && uint16(q.Type) == BE16(msg, noff-4) && uint16(q.Class) == BE16(msg, noff-2)
+//@   ensures err != nil ==> q == nil
+
+//@ func (q *Question) Copy() (cq *Question)
+//@   props C01 C03 C20
+//@   requires q != nil
+//@   modifies nothing
+//@   ensures cq != nil && fresh(cq) && fresh(cq.Name) && len(cq.Name) == len(q.Name)
+//@             && bytesEq(cq.Name, 0, q.Name, 0, len(q.Name)) && cq.Type == q.Type && cq.Class == q.Class
+
+//@ func ReleaseQuestion(q *Question)
+//@   props C01 C20
+//@   requires q != nil
+//@   modifies q.Name, q.Type, q.Class
+//@   ensures q.Name == nil && q.Type == 0 && q.Class == 0
